@@ -662,7 +662,9 @@ func runRT(r *hx.Run, id string, s spec) {
 		return
 	}
 	names, _ := fields(headerBlock(r2))
-	r.Add(mc, res.Obs+" | "+strings.Join(names, ","), true)
+	r.Add(mc, res.Obs+" "+emlx.GenValues(m2)+" | "+strings.Join(names, ","), true)
+	// kind front: the whole parse in Gallina from the rendered bytes (MimeRead.read_tree + EmlFront + Eml)
+	r.Add(hx.Case{ID: id + "f", Kind: "front", Args: append([]string{hx.Hex(r1)}, emlx.FrontArgs(r1)...)}, res.Obs+" "+emlx.GenValues(m2), true)
 	s.checkRerender(r, id, r2)
 }
 
@@ -850,6 +852,7 @@ func Run(r *hx.Run, replay []hx.Case) {
 				}
 			case "fname":
 				runFname(r, c.ID, string(hx.UnHex(c.Args[0])))
+			case "front": // replayed through its rt case
 			}
 		}
 		return
